@@ -7,6 +7,9 @@ exactly when g_all contains a CRLF or exceeds 1024 bytes, the decision is a func
 request never change anything, and every handler / upload-handler call site requires that no handler
 was invoked before (ghost counter <= 1).  The stability lemmas below close the argument: once a
 decision has been reached for g_all it is the decision for every extension of g_all.
+PyOpenSSL pump (contracts/tls_proto.py): invariant J3 'the inner protocol has received exactly the
+plaintext OpenSSL released, once and in order' over TLSServerProtocol.data_received, including the
+application data that arrives in the same read as the end of the handshake.
 """
 import z3
 
@@ -38,5 +41,8 @@ def build(E):
     n = z3.Int("L_size")
     spec.lemmas.append(("titan-content-stable: once `size` bytes followed the request line, later bytes do not change the content",
                         [n >= 0, z3.Length(b) >= n], z3.SubString(z3.Concat(b, ext), 0, n) == z3.SubString(b, 0, n)))
+    from contracts import tls_proto
+    tls_proto.add_targets(E, spec, "C07")
+    spec.targets = [t for t in spec.targets if not ("tls_protocol:" in t[0] and ("TLSTransportWrapper" in t[0] or t[0].endswith("_handle_handshake_timeout")))]
     spec.trusted.append("R1 over the segmentation: a byte stream cut into reads is a finite sequence of data_received events")
     return spec
